@@ -3,14 +3,16 @@
 Layout of the obligations (every clause is taken from proposed/C14_property.json or the doc comments):
   * scalar overloads carry the property clauses themselves, written with spec_ord32/spec_ord64
     (specs/spec_ulp.h: the order-preserving map of IEEE bits to integers, +0 and -0 both 0);
-  * vector / matrix / quaternion overloads of nextFloat, prevFloat, floatDistance and of the epsilon
+  * vector / matrix / quaternion overloads of nextFloat/prevFloat, of floatDistance and of the epsilon
     comparisons carry the statement's "per component" as a relational clause against the scalar overload of
     the same function (uses=[...]); they inherit the property - and any finding - of the scalar overload;
+  * n-step overloads: "equals n single steps" as ord(result) = ord(x) +- n on the scalar overload: n <= 16 per change,
+    n <= 64 (float) / n <= 32 (double) in the thorough tier; vector overloads: same as scalar per component for n <= 8;
   * the ULP comparison equal/notEqual(x, y, ULPs) is separate code in the scalar and in the vector overload, so
-    the vector overloads carry the property clauses per component *and* the relational clause
+    the vector overloads carry the property clauses per component *and* one relational cross-check per function
     ("identically for the scalar, vector and matrix overloads"); matrix overloads: property clause per column.
-The ULP-comparison clause is split by case (same sign / both zero / values straddling zero); the conjunction of
-the three cases is the statement's clause, nothing is dropped.
+The ULP-comparison clause is split by case (same sign / both zero / values straddling zero, the latter in its two
+directions); the conjunction of the cases is the statement's clause, nothing is dropped.
 """
 from engine import Prop
 from shimgen import *
